@@ -41,6 +41,7 @@
  *                                 Cello_Exit (main) or after join (thread)
  * Every op prints
  *   O <op> ev=<f<id> = destructor entered, x<id> = memory released, in order (sorted in uno)> pend=<pending order|-> reg=<ids, r = root> run=<0|1> mit=<mitems>
+ *            tb=<entry tables of the collector that are allocated>,<pending lists that are allocated>   (1,0 between ops, 0,0 after teardown)
  * Direct oracle (ledger, independent of the Lean model): X lines, see oracle_after_op / oracle_final. */
 #include "common.h"
 #include <sys/mman.h>
@@ -118,6 +119,7 @@ static int id_of(var p) {
   return -1;
 }
 
+static void note_freelist(void);
 static void take_snapshot(var self) {
   struct GC* gc = the_gc;
   if (!gc || gc->freenum == 0 || nsnap >= 0 || gc->freelist == NULL) return;
@@ -132,6 +134,7 @@ static void take_snapshot(var self) {
 
 static void ledger(char c, var self) {
   int id = id_of(self);
+  note_freelist();
   if (c == 'f') take_snapshot(self);
   if (nev < MAXEV) { evs[nev].c = c; evs[nev].id = id; nev++; }
   if (id < 0) { X("sig=life-unknown-object line=%zu what=%s of an address that is not a live probe", cur_line, c == 'f' ? "destructor" : "dealloc"); return; }
@@ -146,7 +149,11 @@ static var Arena_Alloc_Probe(void); static var Arena_Alloc_PBox(void); static va
 static void Arena_Dealloc(var self) { ledger('x', self); }
 static void Probe_New(var self, var args) { struct Probe* p = self; p->id = c_int(get(args, $I(0))); }
 /* the del(NULL) of a destructor declared with op z (GC_Rem_Ptr's NULL guard, fix d3e4e44) */
-static void maybe_del_null(var self) { int id = id_of(self); if (id >= 0 && objs[id].nulldel) del(NULL); }
+static int dtor_catches = 0;
+/* … such a destructor also throws and catches an exception of its own (ordinary user code): it needs the thread's exception
+   record, also when it runs from GC_Del at thread exit (Thread_Init_Run deletes the record after the collector) */
+__attribute__((noinline)) static void dtor_throw_catch(void) { var exc; V_TRY(exc, throw(ValueError, "caught inside the destructor")); if (exc) dtor_catches++; }
+static void maybe_del_null(var self) { int id = id_of(self); if (id >= 0 && objs[id].nulldel) { del(NULL); dtor_throw_catch(); } }
 static void Probe_Del(var self) { ledger('f', self); maybe_del_null(self); maybe_raise(self); }
 static void q_alloc_child(int cid, int cslot);
 static void QProbe_Del(var self) {
@@ -209,8 +216,40 @@ static void rt_init(void) {
   rt_alloc_inst = header_init(&rt_alloc.h, Alloc, AllocStatic);
 }
 
+/* ---- the collector's own tables (extension round): every entry table (calloc of GCEntry cells) and every pending list
+   (a block whose address was seen in gc->freelist) of the history's collector, allocated / released.  Reported as
+   ` tb=<live entry tables>,<live pending lists>` on every O line; the model (Cello/LifecycleMem.lean) predicts 1,0 between
+   operations once something was registered and 0,0 after teardown. ---- */
+#define MAXTB 64
+struct TbRec { void* p; char cls; int live; };
+static struct TbRec tbs[MAXTB];
+static int ntb = 0;
+static long tb_allocs[2], tb_frees[2];       /* [0] entry tables, [1] pending lists */
+static struct TbRec* tb_find(void* p) {
+  for (int i = 0; i < ntb; i++) if (tbs[i].p == p && tbs[i].live) return &tbs[i];
+  return NULL;
+}
+static void tb_add(void* p, char cls) {
+  if (!p || tb_find(p)) return;
+  struct TbRec* r = NULL;
+  for (int i = 0; i < ntb; i++) if (!tbs[i].live) { r = &tbs[i]; break; }
+  if (!r && ntb < MAXTB) r = &tbs[ntb++];
+  if (!r) return;
+  r->p = p; r->cls = cls; r->live = 1; tb_allocs[cls == 'F']++;
+}
+static int tb_live(char cls) { int n = 0; for (int i = 0; i < ntb; i++) if (tbs[i].live && tbs[i].cls == cls) n++; return n; }
+/* the pending list of the history's collector, whenever harness code runs while a sweep is releasing objects */
+static void note_freelist(void) { if (the_gc && the_gc->freelist) tb_add(the_gc->freelist, 'F'); }
+
 /* ---- block accounting for the library's own Box (calloc'ed): link-time --wrap=free ---- */
 void* __real_calloc(size_t n, size_t sz);
+void* __real_realloc(void* p, size_t n);
+void* __wrap_realloc(void* p, size_t n) {
+  struct TbRec* r = (in_child && p) ? tb_find(p) : NULL;
+  void* q = __real_realloc(p, n);
+  if (r && q != p) { r->p = q; if (!q) { r->live = 0; tb_frees[r->cls == 'F']++; } }
+  return q;
+}
 void* __wrap_calloc(size_t n, size_t sz) {
   if (in_child && want_tslot >= 0 && n * sz > 2048 && n * sz <= TSTRIDE) {
     char* blk = TREGION + (size_t)want_tslot * TSTRIDE;
@@ -218,10 +257,13 @@ void* __wrap_calloc(size_t n, size_t sz) {
     memset(blk, 0, n * sz);
     return blk;
   }
-  return __real_calloc(n, sz);
+  void* q = __real_calloc(n, sz);
+  if (in_child && the_gc && sz == sizeof(struct GCEntry)) tb_add(q, 'E');
+  return q;
 }
 void __real_free(void* p);
 void __wrap_free(void* p) {
+  if (p && in_child) { struct TbRec* r = tb_find(p); if (r) { r->live = 0; tb_frees[r->cls == 'F']++; } }
   if (p && in_child && (char*)p >= TREGION && (char*)p < TREGION + (size_t)NTYPES * TSTRIDE) {
     /* the memory of a run-time Type object is released (the block stays mapped) */
     var self = (char*)p + sizeof(struct Header);
@@ -303,6 +345,16 @@ static void print_obs(const char* op, int with_reg) {
     else if (raise_pending) X("sig=life-dtor-raised line=%zu what=an exception raised by a destructor left the release loop of GC_Sweep: the pending list (%zu slots) is still set outside a collection", cur_line, gc->freenum);
     else X("sig=life-pending-left line=%zu what=pending list not released after the op", cur_line);
   }
+  {
+    if (with_reg) note_freelist();
+    int e = tb_live('E'), f = tb_live('F');
+    n += snprintf(obuf + n, sizeof obuf - n, " tb=%d,%d", e, f);
+    if (with_reg) {
+      if (e > 1) X("sig=life-table-left line=%zu what=%d entry tables of the collector are allocated after the op (a rehash must release the table it replaces)", cur_line, e);
+      if (f > 0 && !raise_pending) X("sig=life-table-left line=%zu what=%d pending lists of the collector are still allocated after the op (GC_Sweep must release its pending list)", cur_line, f);
+    } else if (!op_raised && (e > 0 || f > 0))
+      X("sig=life-table-left line=%zu what=after teardown %d entry tables and %d pending lists of the collector are still allocated (GC_Del must return them)", cur_line, e, f);
+  }
   if (op_raised) n += snprintf(obuf + n, sizeof obuf - n, " raised");
   O("%s", obuf);
 }
@@ -356,6 +408,7 @@ static void oracle_final(void) {
       X("sig=life-left-behind line=%zu what=object %d (kind %c, how %c) left behind at teardown: finalised %d times, released %d times", cur_line, id, o->kind, o->how, o->nfin, o->nfree);
   }
   I("left=%d", left);
+  I("tables entry=%ld/%ld pending=%ld/%ld dtor_catches=%d", tb_allocs[0], tb_frees[0], tb_allocs[1], tb_frees[1], dtor_catches);
 }
 
 static int parse_ids(char** toks, int ntok, int from, int* out, int* nout, int* next) {
@@ -587,6 +640,7 @@ static var main_bottom = NULL;
 /* runs the ops of the current history up to and including `e`; returns 1 if `e` was reached */
 static int run_history(void) {
   the_gc = current(GC);
+  if (the_gc->entries) tb_add(the_gc->entries, 'E');      /* (a table the collector already had when the history started) */
   main_bottom = the_gc->bottom;
   static char* toks[4096]; static int ids[4096], ids2[4096];
   for (size_t li = 0; li < hist_n; li++) {
